@@ -277,7 +277,7 @@ func VH_C12_pipelined_order() {
 // results the implementation writes reach the caller's Answer, an error from the implementation or
 // from PlaceArgs is the Answer's error and the implementation is not run in the latter case; a call
 // that acknowledges before it returns gives an Answer that resolves when it returns; each call
-// completes exactly once; releasing the answer twice is harmless.
+// completes exactly once.
 func VH_C12_send_path() {
 	arg, res := vNondetU64(), vNondetU64()
 	acks := vConcS(int(vNondetU8()), 2) == 1
@@ -336,7 +336,6 @@ func VH_C12_send_path() {
 		vAssert(err == nil && s.Uint64(0) == res, "C12.send.results-reach-the-caller")
 	}
 	vAssert(ran == 1, "C12.send.completes-exactly-once")
-	rel()
 	rel()
 	vAssert(vLocksHeld() == 0, "C12.send.release.no-lock-held")
 }
